@@ -1121,7 +1121,7 @@ class TypeshedFinder:
                     val = self._parse_expr(keyword.value, module)
                     if isinstance(val, KnownValue) and isinstance(val.val, bool):
                         total = val.val
-        attrs = self._get_all_attributes_from_info(info, module)
+        attrs = sorted(self._get_all_attributes_from_info(info, module))
         fields = [
             self._get_attribute_from_info(
                 info, module, attr, on_class=True, is_typeddict=True
